@@ -322,8 +322,79 @@ let conservativity_cex (vs : var list) (ts : gterm list) (rhs : formula) (seed :
     end
   end
 
+(* the value carried by an error of ProofOutline::from_specification (audit B16), judged against the
+   outline by hand: it must belong to an entry of the outline (placeholders replaced; for lemmas:
+   closed, quantifiers joined) and name a real defect of that entry; with [taken] = Some l also: the
+   predicate of TakenPredicate occurs in l or in an earlier entry, the one of UndefinedRhsPredicate in
+   neither.  Some reason = wrong. *)
+let outline_payload m (outline : specification) (taken : pred list option) (payload : Sexp.t list) : string option =
+  let entries = List.map (M.Outline.rp_annot m) outline in
+  let rec prefixes acc = function [] -> [] | x :: r -> (List.rev acc, x) :: prefixes (x :: acc) r in
+  let positions = prefixes [] entries in   (* (earlier entries, entry) *)
+  let earlier_preds pre = List.concat_map (fun (a : aformula_annot) -> predicates a.an_formula) pre in
+  let closed (a : aformula_annot) =
+    (M.Outline.rp_annot m { a with an_formula = M.Outline.universal_closure_with_quantifier_joining a.an_formula }).an_formula in
+  let head = function
+    | FQ (QForall, _, FBin (CIff, FAtomic (AAtom (p, ts)), _)) -> Some { psym = p; parity = Conv.nat_of_int (List.length ts) }
+    | _ -> None in
+  let exists_entry roles why ok_entry =
+    if List.exists (fun (pre, (a : aformula_annot)) -> List.mem a.an_role roles && ok_entry pre a) positions then None else Some why in
+  let distinct l = List.length (uniq l) = List.length l in
+  match payload with
+  | [ S "AnnotatedFormulaWithInvalidRole"; x ] ->
+    let x = annot x in exists_entry [ RAssumption; RSpec ] "not an assumption / spec entry of the outline" (fun _ a -> a = x)
+  | [ S "TakenPredicate"; p ] ->
+    let p = pred p in
+    exists_entry [ RDefinition ] "not the predicate defined by a definition of the outline that occurs in the task or in an earlier entry"
+      (fun pre a -> head a.an_formula = Some p
+                    && (match taken with None -> true | Some l -> List.mem p l || List.mem p (earlier_preds pre)))
+  | [ S "UndefinedRhsPredicate"; f; p ] ->
+    let f = formula f and p = pred p in
+    exists_entry [ RDefinition ] "not a definition of the outline with this predicate in its body, unknown so far"
+      (fun pre a -> a.an_formula = f
+                    && (match f with FQ (QForall, _, FBin (CIff, _, rhs)) -> List.mem p (predicates rhs) | _ -> false)
+                    && (match taken with None -> true | Some l -> not (List.mem p l || List.mem p (earlier_preds pre))))
+  | [ S "TermsInDefinition"; tm; f ] ->
+    let f = formula f and tm = gterm tm in
+    exists_entry [ RDefinition ] "not a definition of the outline with this non-variable argument"
+      (fun _ a -> a.an_formula = f && gterm_to_var tm = None
+                  && (match f with FQ (QForall, _, FBin (CIff, FAtomic (AAtom (_, ts)), _)) -> List.mem tm ts | _ -> false))
+  | [ S "DuplicatedVariables"; f ] ->
+    let f = formula f in
+    exists_entry [ RDefinition ] "not a definition of the outline with a repeated quantified variable"
+      (fun _ a -> a.an_formula = f && (match f with FQ (QForall, vs, _) -> not (distinct vs) | _ -> false))
+  | [ S "FreeRhsVariables"; f ] ->
+    let f = formula f in
+    exists_entry [ RDefinition ] "not a definition of the outline whose body has a free variable outside the quantifier"
+      (fun _ a -> a.an_formula = f
+                  && (match f with FQ (QForall, vs, FBin (CIff, _, rhs)) -> List.exists (fun v -> not (List.mem v vs)) (free_variables rhs) | _ -> false))
+  | [ S "DefinedPredicateVariableListMismatch"; f ] ->
+    let f = formula f in
+    exists_entry [ RDefinition ] "not a definition of the outline whose head arguments differ from the quantified variables"
+      (fun _ a -> a.an_formula = f
+                  && (match f with
+                      | FQ (QForall, vs, FBin (CIff, FAtomic (AAtom (_, ts)), _)) ->
+                        let hv = List.filter_map gterm_to_var ts in
+                        not (List.for_all (fun v -> List.mem v hv) vs && List.for_all (fun v -> List.mem v vs) hv)
+                      | _ -> false))
+  | [ S "MalformedDefinition"; f ] ->
+    let f = formula f in
+    exists_entry [ RDefinition ] "not a definition of the outline that is not of the shape forall Xs (p(ts) <-> F)"
+      (fun _ a -> a.an_formula = f && head f = None)
+  | [ S ("MalformedInductiveLemma" | "MalformedInductiveAntecedent" | "MalformedInductiveVariables" | "MalformedInductiveTerm"); f ] ->
+    let f = formula f in
+    exists_entry [ RInductiveLemma ] "not the closed formula of an inductive lemma of the outline" (fun _ a -> closed a = f)
+  | [ S "InvalidRoleForGeneralLemma"; _ ] -> Some "InvalidRoleForGeneralLemma cannot be returned by from_specification"
+  | _ -> Some "malformed proof-outline payload"
+
 let sem_outline_gen (e : Sexp.t) : Sexp.t =
   match e with
+  | L [ L [ spec; taken; ph ]; L (A "err" :: payload) ] ->
+    (* a refusal: the value the error carries must name a defect of an entry of the outline *)
+    let m = Ops_tasks.placeholder_map (Ops_tasks.placeholders ph) in
+    (match outline_payload m (specification spec) (Some (list_of pred taken)) payload with
+     | Some why -> L (A "cex" :: S "the value carried by the error does not name a defect of the outline" :: S why :: payload)
+     | None -> ok 1)
   | L [ L [ spec; taken; ph ]; L (A "ok" :: _) ] ->
     let spec = specification spec and taken = list_of pred taken in
     let m = Ops_tasks.placeholder_map (Ops_tasks.placeholders ph) in
@@ -464,6 +535,81 @@ let sem_c13_fresh (e : Sexp.t) : Sexp.t =
   | _ -> bad "sem_c13_fresh: %s" (to_string e)
 
 (* ---------- sem_c11 ---------- *)
+(* the payload of an error of ExternalEquivalenceTask::decompose, judged against the task by hand
+   (no use of the payload functions of Model/External.v); Some reason = wrong *)
+let c11_payload (t : M.External.ext_task) is_tight hpr (v : string) (payload : Sexp.t list) : string option =
+  let ug = t.et_user_guide in
+  let inputs = List.filter_map (function UGInput p -> Some p | _ -> None) ug in
+  let outputs = List.filter_map (function UGOutput p -> Some p | _ -> None) ug in
+  let ug_formulas = List.filter_map (function UGFormula a -> Some a | _ -> None) ug in
+  let spec_program = match t.et_specification with M.Datatypes.Coq_inl p -> [ p ] | _ -> [] in
+  let spec_formulas = match t.et_specification with M.Datatypes.Coq_inr s -> s | _ -> [] in
+  let programs = t.et_program :: spec_program in
+  let heads (p : M.Asp.program) =
+    List.filter_map (fun (r : M.Asp.rule) -> match r.rhead with
+        | M.Asp.HBasic a | M.Asp.HChoice a -> Some { psym = a.apred; parity = Conv.nat_of_int (List.length a.aterms) }
+        | M.Asp.HFalsity -> None) p in
+  let is_assumption (a : aformula_annot) = a.an_role = RAssumption in
+  let check l = List.fold_left (fun acc (c, why) -> match acc with Some _ -> acc | None -> if c then None else Some why) None l in
+  let preds_payload k = match payload with [ ps ] -> k (list_of pred ps) | _ -> Some "payload is not one list of predicates" in
+  let annot_payload k = match payload with [ a ] -> k (annot a) | _ -> Some "payload is not one annotated formula" in
+  let same_set a b = List.for_all (fun x -> List.mem x b) a && List.for_all (fun x -> List.mem x a) b in
+  let safe f = try f () with Ops_tasks.Missing _ -> true in
+  match v with
+  | "UnsupportedFormulaRepresentation" -> check [ (payload = [], "unexpected payload"); (t.et_repr = M.Strong.ReprMu, "the representation is tau-star") ]
+  | "NonTightProgram" | "ProgramContainsPrivateRecursion" ->
+    (match payload with
+     | [ p ] ->
+       let p = program p in
+       check [ (List.mem p programs, "the program is neither the program nor the specification program of the task");
+               (v <> "NonTightProgram" || not (is_tight p), "the program is tight");
+               (v <> "NonTightProgram" || not t.et_bypass_tightness, "--bypass-tightness is set");
+               (v <> "ProgramContainsPrivateRecursion"
+                || (p = t.et_program && safe (fun () -> hpr p (M.External.task_prog_private t)))
+                || (List.mem p spec_program && safe (fun () -> hpr p (M.External.task_spec_private t))),
+                "the program has no private recursion") ]
+     | _ -> Some "payload is not one program")
+  | "InputOutputPredicatesOverlap" ->
+    preds_payload (fun ps -> check [
+        (ps <> [], "empty list");
+        (List.for_all (fun p -> List.mem p inputs && List.mem p outputs) ps, "a predicate is not declared both input and output");
+        (List.for_all (fun p -> not (List.mem p outputs) || List.mem p ps) inputs, "an overlapping predicate is missing") ])
+  | "InputPredicateInRuleHead" ->
+    preds_payload (fun ps -> check [
+        (ps <> [], "empty list");
+        (List.for_all (fun p -> List.mem p inputs) ps, "a predicate is not a declared input");
+        (List.exists (fun prog -> same_set ps (List.filter (fun p -> List.mem p (heads prog)) inputs)) programs,
+         "not the input predicates heading a rule of the program or of the specification program") ])
+  | "OutputPredicateInSpecificationAssumption" | "OutputPredicateInUserGuideAssumption" ->
+    let fs = if v = "OutputPredicateInSpecificationAssumption" then spec_formulas else ug_formulas in
+    preds_payload (fun ps -> check [
+        (ps <> [], "empty list");
+        (List.for_all (fun p -> List.mem p outputs) ps, "a predicate is not a declared output");
+        (List.exists (fun a -> is_assumption a && same_set ps (List.filter (fun p -> List.mem p outputs) (predicates a.an_formula))) fs,
+         "not the output predicates of one assumption") ])
+  | "PlaceholdersWithIdenticalNamesDifferentSorts" ->
+    (match payload with
+     | [ n ] ->
+       let n = str n in
+       let sorts = uniq (List.filter_map (function UGPlaceholder (m, s) when m = n -> Some s | _ -> None) ug) in
+       check [ (List.length sorts >= 2, "the user guide does not declare this name with two sorts") ]
+     | _ -> Some "payload is not one name")
+  | "AssumptionContainsNonInputSymbols" ->
+    annot_payload (fun a ->
+        let private_of_program =
+          List.filter (fun p -> not (List.mem p inputs || List.mem p outputs)) (M.Asp.program_preds t.et_program) in
+        let foreign allowed = List.exists (fun p -> not (List.mem p allowed)) (predicates a.an_formula) in
+        check [ (is_assumption a, "not an assumption");
+                ((List.mem a ug_formulas && foreign inputs) || (List.mem a spec_formulas && foreign (inputs @ private_of_program)),
+                 "not an assumption of the user guide / specification with a predicate that is not allowed there") ])
+  | "SpecificationContainsUnsupportedRoles" ->
+    annot_payload (fun a -> check [ (List.mem a spec_formulas, "not a formula of the specification");
+                                    (a.an_role <> RAssumption && a.an_role <> RSpec, "the role is supported") ])
+  | "ProofOutlineError" ->
+    (* the taken predicates at that point depend on the translations: not re-derived here *)
+    outline_payload (M.Outline.ph_of_fconsts (M.External.ug_placeholders ug)) t.et_proof_outline None payload
+  | _ -> Some "unknown variant"
+
 let sem_c11 (e : Sexp.t) : Sexp.t =
   match e with
   | L [ _; L [ A "none" ] ] -> ok 0
@@ -493,11 +639,16 @@ let sem_c11 (e : Sexp.t) : Sexp.t =
          (match List.find_opt (fun (_, _, c) -> not (c ())) conds with
           | Some (what, _, _) -> L [ A "cex"; S "problems were emitted although a condition is violated"; S what ]
           | None -> ok 7)
-       | L [ A "err"; S v ] ->
-         (* a refusal must be justified: the condition the error names is indeed violated *)
+       | L (A "err" :: S v :: payload) ->
+         (* a refusal must be justified: the condition the error names is indeed violated ... *)
          (match List.find_opt (fun (_, n, _) -> n = v) conds with
-          | Some (what, _, c) -> if c () then L [ A "cex"; S "refused although the named condition holds"; S what ] else ok 1
-          | None -> ok 0)
+          | Some (what, _, c) when c () -> L [ A "cex"; S "refused although the named condition holds"; S what ]
+          | _ ->
+            (* ... and the value the error carries names the violation (audit B16): an independent
+               check of the payload against the task *)
+            (match c11_payload t is_tight hpr v payload with
+             | Some why -> L (A "cex" :: S "the value carried by the error does not name a violation of the task" :: S v :: S why :: payload)
+             | None -> ok 1))
        | _ -> ok 0
      with Ops_tasks.Missing n -> L [ A "cex"; S "component not supplied"; S n ])
   | _ -> bad "sem_c11: %s" (to_string e)
